@@ -94,9 +94,9 @@ def eval_table(rec):
             hit = [e for e in cj if row["x"] is not None
                    and e["x"].tobytes() == row["x"].tobytes()]
             if hit:
-                cvals.append(hit[-1]["v"])
+                cvals.append(hit[-1].get("v_stated", hit[-1]["v"]))
                 last_x[j] = hit[-1]["x"].tobytes()
-                last_v[j] = hit[-1]["v"]
+                last_v[j] = hit[-1].get("v_stated", hit[-1]["v"])
             elif row["x"] is not None and last_x.get(j) == row["x"].tobytes():
                 cvals.append(last_v[j])          # legitimately cached
             else:
@@ -462,6 +462,13 @@ def o_c06(rec):
                     return out, info
                 info["omitted_cached"] += 1
     for k, e in enumerate(log):
+        if e["t"] == "con" and "args_got" in e:
+            out.append(V("constraint_called_with_wrong_args",
+                         f"constraint {e['j']} was stated with extra "
+                         f"arguments {e['args_stated']} but called with "
+                         f"{e['args_got']}", mechanism="wrong_args",
+                         j=e["j"]))
+            return out, info
         if e["t"] in ("obj", "con"):
             if e["x"].shape != (n_user,):
                 out.append(V("call_in_internal_variables",
